@@ -89,6 +89,20 @@ pub fn run(shape: &str, n: usize, chords: usize, selfsame_every: usize, seed: u6
                 link(objs[a].as_ref().unwrap(), t, false);
                 edges += 1;
             }
+            if shape == "star" {
+                for j in 1..n {
+                    let t = at(&objs, j);
+                    link(objs[0].as_ref().unwrap(), t, false);
+                    edges += 1;
+                }
+            }
+            if shape == "ring+skip2" {
+                for i in 0..n {
+                    let t = at(&objs, (i + 2) % n);
+                    link(objs[i].as_ref().unwrap(), t, false);
+                    edges += 1;
+                }
+            }
             if shape == "ring+self" {
                 for i in (0..n).step_by(5) {
                     let t = at(&objs, i);
